@@ -14,7 +14,10 @@ def run(tier, replay=None):
     out.add_tlc(gres)
     if replay:
         cases = [json.load(open(replay))["witness"]["case"]]
-    hc = [{"id": i + 1, "mode": "observe", "text": c["text"], "want": ["nodes", "errors", "lints"]} for i, c in enumerate(cases)]
+    # a program that includes d.s (a file of data definitions only) travels as a file tree
+    hc = [dict({"id": i + 1, "mode": "observe", "want": ["nodes", "errors", "lints"]},
+               **({"files": {"main.s": c["text"], "d.s": "val: .word 5\nbuf: .space 8\n"}, "base": "main.s"}
+                  if '.include "d.s"' in c["text"] else {"text": c["text"]})) for i, c in enumerate(cases)]
     tp, hevs = run_harness_par(rvh, hc, wd, "inject")
     tr = [{"id": e["id"], "ev": e["ev"], "prop": "C05",
            "case": {"inj": c["inj"], "codes": c["codes"], "line": c["line"], "alt": c["alt"], "reg": c["reg"]},
@@ -39,5 +42,5 @@ def run(tier, replay=None):
     return out.finish(extra_cov={
         "injected_programs": len(cases), "per_kind": dict(kinds), "exhaustive": False,
         "evaluations": len(cases), "distinct_nontrivial": len(kinds),
-        "rule": "tlc -simulate over Gen_Conform with WithInject: 16 injection kinds (saved/sp/ra not restored, temporary after call, never-assigned register, unused assignment, write to zero, stack access at / above entry sp, instruction in .data, unknown ecall, unreachable after ret / after jump, jump into function, fall-through into function, function first in program) x function x base program; distinct = kinds exercised",
+        "rule": "tlc -simulate over Gen_Conform with WithInject: 18 injection kinds (saved/sp/ra not restored, a saved register given another saved register's value, an instruction in .data behind an include, temporary after call, never-assigned register, unused assignment, write to zero, stack access at / above entry sp, instruction in .data, unknown ecall, unreachable after ret / after jump, jump into function, fall-through into function, function first in program) x function x base program; distinct = kinds exercised",
     })
